@@ -499,7 +499,7 @@ pub fn run(ctx: &mut Ctx) {
             }
         }
     }
-    let n = ctx.budget(1_600, 120_000);
+    let n = ctx.budget(1_600, 300_000);
     let opts = GenOpts::core();
     for i in 0..n {
         let seed = ctx.rng.next();
